@@ -40,6 +40,9 @@ func genC07(t *rapid.T) c07Case {
 		c.Cfg.VInc = rapid.SampledFrom([]string{"", "same", "add:1", "dbl"}).Draw(t, "vinc")
 		c.Cfg.VDec = rapid.SampledFrom([]string{"", "half", "sub:1", "sub:5"}).Draw(t, "vdec")
 	}
+	if c.Cfg.VThr == "" && c.Cfg.NoLoad == "" {
+		genUnsetSafe(t, &c.Cfg) // short constructors / parameters left to the library defaults: judged without assuming any default value
+	}
 	if rapid.IntRange(0, 3).Draw(t, "hasPrefix") > 0 {
 		c.Prefix = genSamples(t, c.Cfg, 150)
 	}
@@ -90,6 +93,9 @@ func runC07(_ *testing.T, c c07Case) kit.Outcome {
 	// (b) sustained healthy saturation
 	start := b.Outer.EstimatedLimit()
 	out := kit.Outcome{Labels: []string{"algo:" + algo}}
+	if c.Cfg.Ctor != "" || len(c.Cfg.Unset) > 0 {
+		return runC07Defaults(c, b, out, sawDrop && sawZero)
+	}
 	max := c.Cfg.Max
 	sat := func(est int) int { return 2*maxInt(max, est) + 1 }
 	runRTT := func() int64 {
@@ -207,6 +213,92 @@ func runC07(_ *testing.T, c c07Case) kit.Outcome {
 	if gap >= 3 {
 		out.Labels = append(out.Labels, "run>=3-below-ceiling")
 	}
+	return out
+}
+
+// runC07Defaults: part (b) for configurations whose effective values are the library's own defaults. Nothing is
+// assumed about those values: the ceiling is *measured* on a freshly constructed instance of the same configuration
+// (a long healthy saturated run), and the instance that lived through the prefix must get to within one of the same
+// value under the same run ("no reachable state is stuck").
+func runC07Defaults(c c07Case, b built, out kit.Outcome, ntPrefix bool) kit.Outcome {
+	algo := c.Cfg.Algo
+	out.Labels = append(out.Labels, "defaults-in-play")
+	if algo == "gradient" && c.Cfg.ProbeInterval != -1 {
+		out.Labels = append(out.Labels, "defaults:gradient-probing-not-compared")
+		return out
+	}
+	if algo == "aimd" {
+		// no ceiling: every saturated healthy sample must raise the estimate by the same (unknown, positive) increment
+		step := 0
+		for i := 0; i < c.AIMDN; i++ {
+			prev := b.Outer.EstimatedLimit()
+			b.Outer.OnSample(0, c.RunRTT, prev+i%3, false)
+			d := b.Outer.EstimatedLimit() - prev
+			if d < 1 || (step != 0 && d != step) {
+				return kit.Viol("aimd:increase", "default-constructed AIMD: saturated drop-free sample at limit %d moved the estimate by %d (earlier step %d)", prev, d, step)
+			}
+			step = d
+		}
+		out.NonTrivial = ntPrefix
+		return out
+	}
+	// blocks of 10 000 saturated healthy samples (longer than any flat stretch the Gradient2 long-term average can
+	// cause for the windows generated); "settled" = a whole block changed nothing
+	const block, maxBlocks = 10000, 60
+	feed := func(x built) {
+		prev := x.Outer.EstimatedLimit()
+		rtt := c.RunRTT
+		if algo != "gradient2" {
+			if nl, ok := x.noLoad(); ok && nl > 0 {
+				rtt = nl
+			}
+		}
+		inf := 2*maxInt(prev, 1) + 1
+		if c.Cfg.known("max") {
+			inf = 2*maxInt(c.Cfg.Max, prev) + 1
+		}
+		x.Outer.OnSample(0, rtt, inf, false)
+	}
+	fresh, err := tryBuildLimit(c.Cfg, nil)
+	if err != nil {
+		return out
+	}
+	if fresh.Outer.EstimatedLimit() < c.Cfg.floorOf() {
+		out.Labels = append(out.Labels, "discard:default-initial-below-min")
+		return out
+	}
+	if q := c.Cfg.effectiveQueue(); algo == "gradient2" && q(maxInt(fresh.Outer.EstimatedLimit(), 1)) < 1 {
+		out.Labels = append(out.Labels, "allowance0-no-growth-claimed")
+		return out
+	}
+	ceil, settled := 0, false
+	for blk := 0; blk < maxBlocks && !settled; blk++ {
+		at := fresh.Outer.EstimatedLimit()
+		for j := 0; j < block; j++ {
+			feed(fresh)
+		}
+		ceil = fresh.Outer.EstimatedLimit() // where a fresh instance settles (an initial value above the maximum is not the ceiling)
+		settled = ceil == at
+	}
+	if !settled {
+		out.Labels = append(out.Labels, "defaults:run-not-settled-within-cap")
+		return out
+	}
+	start := b.Outer.EstimatedLimit()
+	peak := start
+	for blk := 0; blk < maxBlocks && peak < ceil-1; blk++ {
+		at := b.Outer.EstimatedLimit()
+		for j := 0; j < block && peak < ceil-1; j++ {
+			feed(b)
+			if e := b.Outer.EstimatedLimit(); e > peak {
+				peak = e
+			}
+		}
+		if peak < ceil-1 && b.Outer.EstimatedLimit() == at {
+			return kit.Viol(algo+":stuck", "defaults in play (ctor=%q unset=%v): saturated healthy samples settle a fresh instance at %d; the instance that lived through the prefix (estimate %d) stays at %d for %d such samples", c.Cfg.Ctor, c.Cfg.Unset, ceil, start, at, block)
+		}
+	}
+	out.NonTrivial = ntPrefix && ceil-start >= 3
 	return out
 }
 
